@@ -109,7 +109,12 @@ func (core *JApiCore) compileUserTypeWithAllDependencies(name string) error {
 
 	tt, err := fetchUsedUserTypes(currUT, core.userTypes)
 	if err != nil {
-		return jschemaToJAPIError(err, dd.GetValue(name))
+		failed := name
+		var ue *usedUserTypeError
+		if errors.As(err, &ue) && dd.GetValue(ue.typeName) != nil {
+			failed = ue.typeName
+		}
+		return jschemaToJAPIError(err, dd.GetValue(failed))
 	}
 
 	for _, n := range tt {
